@@ -107,7 +107,7 @@ def slices(tier, rng):
                      opts={'map_order': hook, 'must_reach': ['ok/ok']}, ctx={'t': 'graph'})
     out.append(g('graph-k2-ps4', 2, 4, 1, [0, 1, 2, 4, 5], [0]))
     if not quick:
-        out.append(g('graph-k2-nf2-ps4', 2, 4, 2, [1, 2, 5], [0]))
+        out.append(g('graph-k2-nf2-ps4', 2, 4, 2, [1, 2], [0], hook=order_hook_global))
         out.append(g('graph-k3-ps4', 3, 4, 1, [1, 2], [0], hook=order_hook_global))
         out.append(g('graph-k2-ps8', 2, 8, 1, [6, 1, 2, 5], [0]))
     from . import c11
